@@ -790,7 +790,7 @@ class electrical_signal():
         if self.noise is None and other.noise is None:
             return self.__class__(self.signal - other.signal, dtype=dtype)
         elif self.noise is None:
-            return self.__class__(self.signal - other.signal, np.broadcast_to(-other.noise, (self.signal - other.signal).shape), dtype=dtype)
+            return self.__class__(self.signal - other.signal, np.broadcast_to(np.negative(other.noise, dtype=dtype), (self.signal - other.signal).shape), dtype=dtype)
         elif other.noise is None:
             return self.__class__(self.signal - other.signal, np.broadcast_to(self.noise, (self.signal - other.signal).shape), dtype=dtype)
         return self.__class__(self.signal - other.signal, self.noise - other.noise, dtype=dtype)
@@ -805,12 +805,12 @@ class electrical_signal():
         dtype = np.result_type(self.signal, other.signal)
 
         if self.noise is None and other.noise is None:
-            return self.__class__(-self.signal + other.signal, dtype=dtype)
+            return self.__class__(other.signal - self.signal, dtype=dtype)
         elif self.noise is None:
-            return self.__class__(-self.signal + other.signal, np.broadcast_to(other.noise, (-self.signal + other.signal).shape), dtype=dtype)
+            return self.__class__(other.signal - self.signal, np.broadcast_to(other.noise, (other.signal - self.signal).shape), dtype=dtype)
         elif other.noise is None:
-            return self.__class__(-self.signal + other.signal, np.broadcast_to(-self.noise, (-self.signal + other.signal).shape), dtype=dtype)
-        return self.__class__(-self.signal + other.signal, -self.noise + other.noise, dtype=dtype)
+            return self.__class__(other.signal - self.signal, np.broadcast_to(np.negative(self.noise, dtype=dtype), (other.signal - self.signal).shape), dtype=dtype)
+        return self.__class__(other.signal - self.signal, other.noise - self.noise, dtype=dtype)
         
     def __mul__(self, other):
         """ Multiply two electrical signals (``*`` operator). Same that ``__rmul__``.
